@@ -94,6 +94,26 @@ def run(ctx):
                 via_new_key = any("indirect" in cc.f for (_, cc, _) in calls) or any(b.local_name(l) == "key" for l in locs)
                 from_sender = any(b.local_name(l) == "sender" or b.local_ty(l).replace("&", "").strip() == "std::net::SocketAddr" for l in locs)
                 ctx.ob("U2", b.defp, "lookup-key-from-this-datagram", loc(t["sp"]), via_new_key and from_sender, "table lookup key is new_key(sender, target) of the datagram being routed" if via_new_key and from_sender else "table lookup key does not derive from the datagram's sender")
+    # U9: the binding table expires entries by age (an LruCache with a lifetime); `get`/`get_mut`/`entry`/`insert` are what renews an
+    # entry. A reply handed to the local socket must renew the binding it came through, otherwise an application that mostly *receives*
+    # (one request, a stream of answers) loses its binding - and every later answer - while answers are still flowing.
+    n_reply_sends = 0
+    for b in loops:
+        renew = [blk for (blk, c, t) in b.calls() if c.name in ("LruCache::get", "LruCache::get_mut", "LruCache::entry", "LruCache::insert")]
+        expiring = any(c.name.startswith("LruCache::with_expiry") for (_, c, _) in b.calls())
+        if not expiring:
+            continue
+        for (blk, c, t) in b.calls():
+            if c.name != "SinkExt::send" or "SplitSink<tokio_util::udp::UdpFramed<" not in (c.self_s or ""):
+                continue
+            n_reply_sends += 1
+            lp = b.innermost_loop(blk)
+            ok = any(b.dominates(r, blk) and (lp is None or r in lp[1]) for r in renew)
+            ctx.ob("U9", b.defp, "reply-renews-its-binding", loc(t["sp"]), ok,
+                   "the reply path renews the binding-table entry before handing the reply to the application" if ok else
+                   "a reply is handed to the local socket without any renewing access (get / get_mut / entry / insert) to the expiring binding table on that path: "
+                   "bindings are kept alive only by what the application sends, so a receive-mostly application is evicted (capacity or age) while its answers are still arriving and loses them")
+    ctx.floor("U9", "reply sends to the local UDP socket in the binding-table loop", 1, n_reply_sends)
     # U1 call site: new_binding passes the datagram's sender on to to_inbound_recv
     nb = [b for b in bodies if "template::new_binding" in b.defp and any("indirect" in c.f for (_, c, _) in b.calls())]
     for b in nb:
